@@ -26,6 +26,9 @@ def check(model, R, tier):
     K.check_scatter(model, R, kernels, 'C01', floor=3)
     K.check_reduce(model, R, 'C01', ['synapgrad.cpu_ops.%s_backward' % n for n in ('sum', 'mean', 'max', 'min')])
     K.check_mean_divisor(model, R, 'C01')
+    from sa import deriv
+    deriv.check_deriv(model, R, 'C01', ['add', 'mul', 'pow', 'rpow', 'neg', 'clone', 'exp', 'log', 'sqrt'])
+    K.check_window_axis(model, R, 'C01')
     from sa import rules_axis as A
     A.check_axis(model, R, 'C01', scope='backward')
     return dict(
